@@ -18,6 +18,7 @@ import (
 	golog "log"
 	"net"
 	"os"
+	"path/filepath"
 	"strings"
 	"sync"
 	"testing"
@@ -27,6 +28,7 @@ import (
 	"github.com/refraction-networking/conjure/internal/vc17"
 	"github.com/refraction-networking/conjure/internal/vlib"
 	"github.com/refraction-networking/conjure/pkg/core"
+	"github.com/refraction-networking/conjure/pkg/station/geoip"
 	cj "github.com/refraction-networking/conjure/pkg/station/lib"
 	"github.com/refraction-networking/conjure/pkg/station/log"
 	"github.com/refraction-networking/conjure/pkg/transports"
@@ -259,7 +261,11 @@ func TestVerifC17App(t *testing.T) {
 		err := n.Go()
 		g := generalizeErr(err)
 		ans := "nil"
-		if g != nil {
+		if g != nil && n.OpaqueAddr() {
+			// differential only: see `opaque_address_passes_through` and the package lib harness
+			ans = vlib.Hex([]byte(g.Error()))
+			out.Count("gen:opaque-address-passes-through")
+		} else if g != nil {
 			ans = vlib.Hex([]byte(g.Error()))
 			out.Checked()
 			for _, needles := range all {
@@ -279,6 +285,11 @@ func TestVerifC17App(t *testing.T) {
 			for _, n := range vc17.Shapes(op, st, cl.Addr) {
 				genCase(n)
 			}
+		}
+	}
+	for _, cl := range clients {
+		for _, n := range vc17.Opaque(cl.Addr) {
+			genCase(n)
 		}
 	}
 	r := vlib.NewRand("C17app")
@@ -419,6 +430,53 @@ func TestVerifC17App(t *testing.T) {
 	// ---- (C) handleNewConn: the descriptor of a closed connection cannot be duplicated
 	c17aFileError(out)
 
+	// ---- (D) a GeoIP database that cannot answer for the client's address family: the station's GeoIP
+	// wrapper on two IPv4-only MaxMind databases; the reader's error for an IPv6 lookup repeats the address
+	if db, err := c17aIPv4OnlyGeoIP(t.TempDir()); err != nil {
+		c17aFail(out, "C17:harness-geoip-database", "cannot open the IPv4-only test databases: "+err.Error(), "geoip")
+	} else {
+		w := c17aNewWorld(covertAddr, map[pb.TransportType]cj.Transport{pb.TransportType_Min: min.Transport{}})
+		w.rm.GeoIP = db
+		for _, cl := range clients {
+			conn := newC17aConn(st.TCP, cl.Addr.TCP)
+			conn.chunks = [][]byte{junk}
+			taken()
+			cm.handleNewTCPConn(w.rm, conn, w.phantom)
+			logged := taken()
+			out.Checked()
+			out.Count("conn:geoip-fails")
+			if cl.Addr.TCP.IP.To4() == nil && !strings.Contains(logged, "Failed to get") {
+				c17aFail(out, "C17:harness-geoip-database", "the IPv6 lookup in the IPv4-only database did not fail: "+logged, "geoip|"+cl.Name)
+			}
+			if hit := vc17.Scan(logged, union); hit != "" {
+				c17aFail(out, "C17:geoip-error-names-client",
+					fmt.Sprintf("%s client, GeoIP lookup fails: the station's output contains %s: %s", cl.Name, hit, c17aClip(logged, hit)), "geoip|"+cl.Name)
+			}
+		}
+	}
+
+	// ---- (E) the statistics printers, after every connection above has been counted
+	{
+		taken()
+		sl := log.New(os.Stdout, "[STATS] ", golog.Ldate|golog.Lmicroseconds)
+		cm.PrintAndReset(sl)
+		cj.GetProxyStats().PrintAndReset(sl)
+		plain.rm.PrintAndReset(sl)
+		cj.Stat().PrintStats(false)
+		cj.Stat().PrintStats(true)
+		logged := taken()
+		out.Checked()
+		out.Count("statistics")
+		for _, key := range []string{"conn-stats", "proxy-stats:", "reg-stats: ", "Conns: "} {
+			if !strings.Contains(logged, key) {
+				c17aFail(out, "C17:harness-statistics-incomplete", fmt.Sprintf("the statistics printers did not write %q: %q", key, logged), "statistics")
+			}
+		}
+		if hit := vc17.Scan(logged, union); hit != "" {
+			c17aFail(out, "C17:statistics-have-client-address", "the statistics output contains "+hit+": "+c17aClip(logged, hit), "statistics")
+		}
+	}
+
 	bg.Wait()
 	globMu.Lock()
 	logged := capt.take() + glob.String()
@@ -427,6 +485,17 @@ func TestVerifC17App(t *testing.T) {
 	if hit := vc17.Scan(logged, union); hit != "" {
 		c17aFail(out, "C17:conn-log-has-client-address", "transport-error outcome: the station's output contains "+hit+": "+c17aClip(logged, hit), "conn|tperr")
 	}
+}
+
+func c17aIPv4OnlyGeoIP(dir string) (geoip.Database, error) {
+	cc, asn := filepath.Join(dir, "cc.mmdb"), filepath.Join(dir, "asn.mmdb")
+	if err := os.WriteFile(cc, vc17.IPv4OnlyMMDB("GeoLite2-Country"), 0o644); err != nil {
+		return nil, err
+	}
+	if err := os.WriteFile(asn, vc17.IPv4OnlyMMDB("GeoLite2-ASN"), 0o644); err != nil {
+		return nil, err
+	}
+	return geoip.New(&geoip.DBConfig{CCDBPath: cc, ASNDBPath: asn})
 }
 
 type writerFunc func(p []byte) (int, error)
